@@ -3,6 +3,7 @@ import LivesimVerif.Model.Limiter
 import LivesimVerif.Model.Scte
 import LivesimVerif.Model.Subs
 import LivesimVerif.Model.Chunk
+import LivesimVerif.Model.Patch
 import Driver.Util
 import Driver.Recv
 import Driver.Core
@@ -98,6 +99,34 @@ def opChunk (args : List String) : String :=
     | _, _, _ => "bad-op"
   | _ => "bad-op"
 
+/-! ### C11: `leaf <xs> <ys> <script>` (script: d<p> | i<p>:<q>) -/
+def parseEdit (s : String) : Option Patch.Edit :=
+  if s.startsWith "d" then (s.drop 1).toString.toNat?.map .del
+  else if s.startsWith "i" then
+    match ((s.drop 1).toString.splitOn ":").mapM (·.toNat?) with
+    | some [p, q] => some (.ins p q)
+    | _ => none
+  else none
+
+def lopStr : Patch.LOp Nat → String
+  | .remove k => s!"rm{k}"
+  | .addAfter k x => s!"aa{k}:{x}"
+  | .prepend x => s!"pp{x}"
+
+def opLeaf (args : List String) : String :=
+  match args with
+  | [xs, ys, sc] =>
+    let es := if sc = "-" then some [] else (sc.splitOn ",").mapM parseEdit
+    match natList xs, natList ys, es with
+    | some xs, some ys, some es =>
+      match Patch.leafOps ys es 0 0 with
+      | none => "PANIC index"
+      | some ops =>
+        let ok := match Patch.applyOps ops xs with | some r => r == ys | none => false
+        s!"ops=[{joinWith ";" (ops.map lopStr)}] valid={boolStr (Patch.validB xs ys es 0 0)} applies={boolStr ok}"
+    | _, _, _ => "bad-op"
+  | _ => "bad-op"
+
 def step (st : DState2) (line : String) : DState2 × String :=
   match (line.trimAscii.toString.splitOn " ").filter (· ≠ "") with
   | "parse" :: args => (st, opParse args)
@@ -105,6 +134,7 @@ def step (st : DState2) (line : String) : DState2 × String :=
   | "scte" :: args => (st, opScte args)
   | "cue" :: args => (st, opCue args)
   | "chunk" :: args => (st, opChunk args)
+  | "leaf" :: args => (st, opLeaf args)
   | "ctr" :: args => (st, opCtr args)
   | "buf" :: args => (st, opBuf args)
   | "gen" :: args => (st, opGen args)
